@@ -28,6 +28,18 @@ use crate::Config as FerrousConfig;
 
 
 
+/// Parse a relative expire time given in seconds or milliseconds. Following
+/// Redis it must be a positive integer whose value in milliseconds fits an i64,
+/// so that the deadline computed from it cannot overflow the clock.
+fn parse_expire_time(bytes: &[u8], unit_millis: bool) -> Option<Duration> {
+    let n = std::str::from_utf8(bytes).ok()?.parse::<i64>().ok()?;
+    if n <= 0 {
+        return None;
+    }
+    let millis = if unit_millis { n } else { n.checked_mul(1000)? };
+    Some(Duration::from_millis(millis as u64))
+}
+
 /// Connection ID generator
 static CONN_ID_COUNTER: AtomicU64 = AtomicU64::new(1);
 
@@ -2514,12 +2526,10 @@ impl Server {
                                 return Ok(RespFrame::error("ERR syntax error"));
                             }
                             if let RespFrame::BulkString(Some(seconds_bytes)) = &parts[i + 1] {
-                                if let Ok(seconds_str) = String::from_utf8(seconds_bytes.as_ref().clone()) {
-                                    if let Ok(seconds) = seconds_str.parse::<u64>() {
-                                        expiration = Some(Duration::from_secs(seconds));
-                                        i += 2;
-                                        continue;
-                                    }
+                                if let Some(expires_in) = parse_expire_time(seconds_bytes, false) {
+                                    expiration = Some(expires_in);
+                                    i += 2;
+                                    continue;
                                 }
                             }
                             return Ok(RespFrame::error("ERR invalid expire time"));
@@ -2529,12 +2539,10 @@ impl Server {
                                 return Ok(RespFrame::error("ERR syntax error"));
                             }
                             if let RespFrame::BulkString(Some(millis_bytes)) = &parts[i + 1] {
-                                if let Ok(millis_str) = String::from_utf8(millis_bytes.as_ref().clone()) {
-                                    if let Ok(millis) = millis_str.parse::<u64>() {
-                                        expiration = Some(Duration::from_millis(millis));
-                                        i += 2;
-                                        continue;
-                                    }
+                                if let Some(expires_in) = parse_expire_time(millis_bytes, true) {
+                                    expiration = Some(expires_in);
+                                    i += 2;
+                                    continue;
                                 }
                             }
                             return Ok(RespFrame::error("ERR invalid expire time"));
@@ -2782,6 +2790,10 @@ impl Server {
             let deleted = self.storage.delete(db, key)?;
             Ok(RespFrame::Integer(if deleted { 1 } else { 0 }))
         } else {
+            // The deadline must still fit the clock
+            if seconds > i64::MAX / 1000 {
+                return Ok(RespFrame::error("ERR invalid expire time in 'expire' command"));
+            }
             let result = self.storage.expire(db, key, Duration::from_secs(seconds as u64))?;
             Ok(RespFrame::Integer(if result { 1 } else { 0 }))
         }
@@ -2932,11 +2944,11 @@ impl Server {
             _ => return Ok(RespFrame::error("ERR invalid key format")),
         };
         
-        let seconds = match &parts[2] {
+        let expires_in = match &parts[2] {
             RespFrame::BulkString(Some(bytes)) => {
-                match String::from_utf8_lossy(bytes).parse::<u64>() {
-                    Ok(n) => n,
-                    Err(_) => return Ok(RespFrame::error("ERR value is not an integer or out of range")),
+                match parse_expire_time(bytes, false) {
+                    Some(d) => d,
+                    None => return Ok(RespFrame::error("ERR invalid expire time in 'setex' command")),
                 }
             }
             _ => return Ok(RespFrame::error("ERR invalid expiration format")),
@@ -2947,7 +2959,7 @@ impl Server {
             _ => return Ok(RespFrame::error("ERR invalid value format")),
         };
         
-        self.storage.set_string_ex(db, key, value, std::time::Duration::from_secs(seconds))?;
+        self.storage.set_string_ex(db, key, value, expires_in)?;
         Ok(RespFrame::ok())
     }
     
@@ -2962,11 +2974,11 @@ impl Server {
             _ => return Ok(RespFrame::error("ERR invalid key format")),
         };
         
-        let millis = match &parts[2] {
+        let expires_in = match &parts[2] {
             RespFrame::BulkString(Some(bytes)) => {
-                match String::from_utf8_lossy(bytes).parse::<u64>() {
-                    Ok(n) => n,
-                    Err(_) => return Ok(RespFrame::error("ERR value is not an integer or out of range")),
+                match parse_expire_time(bytes, true) {
+                    Some(d) => d,
+                    None => return Ok(RespFrame::error("ERR invalid expire time in 'psetex' command")),
                 }
             }
             _ => return Ok(RespFrame::error("ERR invalid expiration format")),
@@ -2977,7 +2989,7 @@ impl Server {
             _ => return Ok(RespFrame::error("ERR invalid value format")),
         };
         
-        self.storage.set_string_ex(db, key, value, std::time::Duration::from_millis(millis))?;
+        self.storage.set_string_ex(db, key, value, expires_in)?;
         Ok(RespFrame::ok())
     }
     
